@@ -593,7 +593,7 @@ def verify_function(c, registry=REGISTRY, timeout_ms=None):
     res.source_lines = (fn.lineno, getattr(fn, 'end_lineno', fn.lineno))
     axioms = literal_axioms() + list(ctx.axioms)
     t1 = time.time()
-    retries_left = 6
+    retries_left = 4
     crosschecked = 0
     for ob in ctx.obligations:
         verdict, backend, dt, model, reason = solve_one(ob, axioms, timeout_ms,
@@ -607,6 +607,10 @@ def verify_function(c, registry=REGISTRY, timeout_ms=None):
             dt += dt2
             if v2 != 'unknown':
                 verdict, backend, model, reason = v2, b2 + '(retry)', model2, reason2
+        if verdict != 'proved':
+            # the function already has an obligation that is not discharged: retrying the others with
+            # a larger budget cannot change the outcome of the run, only its duration
+            retries_left = 0
         cross = None
         if verdict == 'proved' and backend.startswith('z3') and os.environ.get('VERIF_CROSSCHECK') == '1' \
                 and crosschecked < 25:
